@@ -184,6 +184,21 @@ theorem lazy_reorder_eq_eager (v : View ν α) (h : v.WF) (hn : v.leafIds.Nodup)
       View.lookup, View.leaves, transposeShape_lens (mapShapeToRequested_length hok)]
     rfl
 
+/-- **Constructed views are valid sources**: no hypothesis beyond "built by the constructors over
+    distinct containers". -/
+theorem constructed_views_are_sources (v : View ν α) (hb : Built v) (hn : v.leafIds.Nodup) :
+    v.asSource.lazy.Valid := View.asSource_valid v hb.wf hn
+
+/-- an instance of `consumer_congr` with a law of `adaptor_laws`: no consumer can tell a view
+    reversed twice along the same dimensions from the view itself -/
+theorem reverse_twice_consumers {β : Type} (s : View ν α) (hs : s.WF) (r : List Bool)
+    (hr : r.length = s.shape.length) (F : TView ν α → β) :
+    F (View.reverse (View.reverse s r) r).asSource = F s.asSource := by
+  have h1 : (View.reverse s r).WF := by simp only [View.WF]; exact ⟨hs, hr⟩
+  have h2 : (View.reverse (View.reverse s r) r).WF := by
+    simp only [View.WF]; exact ⟨h1, by simpa [View.shape] using hr⟩
+  exact consumer_congr _ _ h2 hs (reverse_reverse s r hr) rfl F
+
 /-! ### Non-vacuity -/
 
 /-- a reversed range of a 2×3 tensor (names 0, 1) as a source: iteration, `map`, `first`, and the
